@@ -23,7 +23,7 @@ theorem base_implemented_spec {d : Nat} {b : Base} {s : S F} {x : Bool}
   | none => simp [hc] at h; simp [h]
   | some c =>
     simp only [hc] at h
-    rw [ctlValue_of_ok cx h]
+    simp only [ctlValue_of_ok cx h]
     cases x <;> simp
 
 theorem base_available_spec {d : Nat} {b : Base} {s : S F} {x : Bool}
@@ -35,7 +35,7 @@ theorem base_available_spec {d : Nat} {b : Base} {s : S F} {x : Bool}
   | none => simp [hc] at h; simp [h]
   | some c =>
     simp only [hc] at h
-    rw [ctlValue_of_ok cx h]
+    simp only [ctlValue_of_ok cx h]
     cases x <;> simp
 
 /-- `is_locked` answers `x`  ⇒  "not locked" (`ctlIs … false`) is `!x` -/
@@ -48,7 +48,7 @@ theorem base_locked_spec {d : Nat} {b : Base} {s : S F} {x : Bool}
   | none => simp [hc] at h; simp [h]
   | some c =>
     simp only [hc] at h
-    rw [ctlValue_of_ok cx h]
+    simp only [ctlValue_of_ok cx h]
     cases x <;> simp
 
 theorem permitsRead_eq (m : AccessMode) : m.permitsRead = (m != .wo) := by cases m <;> rfl
@@ -97,5 +97,418 @@ theorem base_writable_spec {d : Nat} {b : Base} {s : S F} {x : Bool}
       | false =>
         simp at h
         simp [← hi', ← ha', ← hl', ← h, permitsWrite_eq]
+
+/-- The induction hypothesis: at reference depth `d` every `is_readable` / `is_writable`
+interface call that answers, answers the specification predicate. -/
+structure AccIH (d : Nat) : Prop where
+  intR : ∀ n (s : S F) b, R.val ((execRec cx d).intIsReadable n) s = .ok b → b = readableB cx d n s
+  floatR : ∀ n (s : S F) b, R.val ((execRec cx d).floatIsReadable n) s = .ok b → b = readableB cx d n s
+  strR : ∀ n (s : S F) b, R.val ((execRec cx d).strIsReadable n) s = .ok b → b = readableB cx d n s
+  boolR : ∀ n (s : S F) b, R.val ((execRec cx d).boolIsReadable n) s = .ok b → b = readableB cx d n s
+  enumR : ∀ n (s : S F) b, R.val ((execRec cx d).enumIsReadable n) s = .ok b → b = readableB cx d n s
+  intW : ∀ n (s : S F) b, R.val ((execRec cx d).intIsWritable n) s = .ok b → b = writableB cx d n s
+  floatW : ∀ n (s : S F) b, R.val ((execRec cx d).floatIsWritable n) s = .ok b → b = writableB cx d n s
+  strW : ∀ n (s : S F) b, R.val ((execRec cx d).strIsWritable n) s = .ok b → b = writableB cx d n s
+  boolW : ∀ n (s : S F) b, R.val ((execRec cx d).boolIsWritable n) s = .ok b → b = writableB cx d n s
+  enumW : ∀ n (s : S F) b, R.val ((execRec cx d).enumIsWritable n) s = .ok b → b = writableB cx d n s
+
+variable {cx}
+
+theorem nidIsReadable_spec {d : Nat} (ih : AccIH cx d) {p : NodeId} {s : S F} {x : Bool}
+    (h : R.val (nidIsReadable cx (execRec cx d) p) s = .ok x) :
+    x = (isNumericRef cx p && readableB cx d p s) := by
+  unfold nidIsReadable at h
+  unfold isNumericRef
+  by_cases h1 : isIntKind cx p = true
+  · simp only [h1, ↓reduceIte] at h; simp [h1, ih.intR _ _ _ h]
+  · by_cases h2 : isFloatKind cx p = true
+    · simp only [h1, h2, ↓reduceIte] at h; simp [h2, ih.floatR _ _ _ h]
+    · by_cases h3 : isEnumKind cx p = true
+      · simp only [h1, h2, h3, ↓reduceIte] at h; simp [h3, ih.enumR _ _ _ h]
+      · simp only [h1, h2, h3] at h
+        simp at h; simp [h1, h2, h3, h]
+
+theorem nidIsWritable_spec {d : Nat} (ih : AccIH cx d) {p : NodeId} {s : S F} {x : Bool}
+    (h : R.val (nidIsWritable cx (execRec cx d) p) s = .ok x) :
+    x = (isNumericRef cx p && writableB cx d p s) := by
+  unfold nidIsWritable at h
+  unfold isNumericRef
+  by_cases h1 : isIntKind cx p = true
+  · simp only [h1, ↓reduceIte] at h; simp [h1, ih.intW _ _ _ h]
+  · by_cases h2 : isFloatKind cx p = true
+    · simp only [h1, h2, ↓reduceIte] at h; simp [h2, ih.floatW _ _ _ h]
+    · by_cases h3 : isEnumKind cx p = true
+      · simp only [h1, h2, h3, ↓reduceIte] at h; simp [h3, ih.enumW _ _ _ h]
+      · simp only [h1, h2, h3] at h
+        simp at h; simp [h1, h2, h3, h]
+
+theorem isNidReadable_spec {d : Nat} (ih : AccIH cx d) {p : NodeId} {s : S F} {x : Bool}
+    (h : R.val (isNidReadable cx (execRec cx d) p) s = .ok x) :
+    x = (isFormulaRef cx p && readableB cx d p s) := by
+  unfold isNidReadable at h
+  unfold isFormulaRef
+  by_cases h1 : isIntKind cx p = true
+  · simp only [h1, ↓reduceIte] at h; simp [h1, ih.intR _ _ _ h]
+  · by_cases h2 : isFloatKind cx p = true
+    · simp only [h1, h2, ↓reduceIte] at h; simp [h2, ih.floatR _ _ _ h]
+    · by_cases h3 : isBoolKind cx p = true
+      · simp only [h1, h2, h3, ↓reduceIte] at h; simp [h3, ih.boolR _ _ _ h]
+      · by_cases h4 : isEnumKind cx p = true
+        · simp only [h1, h2, h3, h4, ↓reduceIte] at h; simp [h4, ih.enumR _ _ _ h]
+        · simp only [h1, h2, h3, h4] at h
+          simp at h
+
+theorem isNidWritable_spec {d : Nat} (ih : AccIH cx d) {p : NodeId} {s : S F} {x : Bool}
+    (h : R.val (isNidWritable cx (execRec cx d) p) s = .ok x) :
+    x = (isFormulaRef cx p && writableB cx d p s) := by
+  unfold isNidWritable at h
+  unfold isFormulaRef
+  by_cases h1 : isIntKind cx p = true
+  · simp only [h1, ↓reduceIte] at h; simp [h1, ih.intW _ _ _ h]
+  · by_cases h2 : isFloatKind cx p = true
+    · simp only [h1, h2, ↓reduceIte] at h; simp [h2, ih.floatW _ _ _ h]
+    · by_cases h3 : isBoolKind cx p = true
+      · simp only [h1, h2, h3, ↓reduceIte] at h; simp [h3, ih.boolW _ _ _ h]
+      · by_cases h4 : isEnumKind cx p = true
+        · simp only [h1, h2, h3, h4, ↓reduceIte] at h; simp [h4, ih.enumW _ _ _ h]
+        · simp only [h1, h2, h3, h4] at h
+          simp at h
+
+theorem slotOrNodeIsReadable_spec {d : Nat} (ih : AccIH cx d) {v : ImmOrPNode SlotId} {s : S F}
+    {x : Bool} (h : R.val (slotOrNodeIsReadable cx (execRec cx d) v) s = .ok x) :
+    x = slotOrNodeOk cx (readableB cx d) v s := by
+  cases v with
+  | imm _ => simp [slotOrNodeIsReadable] at h; simp [slotOrNodeOk, h]
+  | pnode p => simp only [slotOrNodeIsReadable] at h; simp [slotOrNodeOk, nidIsReadable_spec ih h]
+
+theorem slotOrNodeIsWritable_spec {d : Nat} (ih : AccIH cx d) {v : ImmOrPNode SlotId} {s : S F}
+    {x : Bool} (h : R.val (slotOrNodeIsWritable cx (execRec cx d) v) s = .ok x) :
+    x = slotOrNodeOk cx (writableB cx d) v s := by
+  cases v with
+  | imm _ => simp [slotOrNodeIsWritable] at h; simp [slotOrNodeOk, h]
+  | pnode p => simp only [slotOrNodeIsWritable] at h; simp [slotOrNodeOk, nidIsWritable_spec ih h]
+
+theorem slotOrNodeStrIsReadable_spec {d : Nat} (ih : AccIH cx d) {v : ImmOrPNode SlotId} {s : S F}
+    {x : Bool} (h : R.val (slotOrNodeStrIsReadable cx (execRec cx d) v) s = .ok x) :
+    x = strSlotOrNodeOk cx (readableB cx d) v s := by
+  cases v with
+  | imm _ => simp [slotOrNodeStrIsReadable] at h; simp [strSlotOrNodeOk, h]
+  | pnode p =>
+    simp only [slotOrNodeStrIsReadable, nidStrIsReadable] at h
+    by_cases h1 : isStrKind cx p = true
+    · simp only [h1, ↓reduceIte] at h; simp [strSlotOrNodeOk, h1, ih.strR _ _ _ h]
+    · simp [h1] at h
+
+theorem slotOrNodeStrIsWritable_spec {d : Nat} (ih : AccIH cx d) {v : ImmOrPNode SlotId} {s : S F}
+    {x : Bool} (h : R.val (slotOrNodeStrIsWritable cx (execRec cx d) v) s = .ok x) :
+    x = strSlotOrNodeOk cx (writableB cx d) v s := by
+  cases v with
+  | imm _ => simp [slotOrNodeStrIsWritable] at h; simp [strSlotOrNodeOk, h]
+  | pnode p =>
+    simp only [slotOrNodeStrIsWritable, nidStrIsWritable] at h
+    by_cases h1 : isStrKind cx p = true
+    · simp only [h1, ↓reduceIte] at h; simp [strSlotOrNodeOk, h1, ih.strW _ _ _ h]
+    · simp [h1] at h
+
+theorem selValue_of_ok {d : Nat} {sel : NodeId} {s : S F} {i : Int}
+    (h : R.val (pIndexIndex cx (execRec cx d) sel) s = .ok i) : selValue cx d sel s = some i := by
+  unfold selValue; unfold R.val at h; rw [h]
+
+theorem pIndexSelReadable_spec {d : Nat} (ih : AccIH cx d) {sel : NodeId} {s : S F} {x : Bool}
+    (h : R.val (pIndexSelReadable cx (execRec cx d) sel) s = .ok x) :
+    isIntKind cx sel = true ∧ x = readableB cx d sel s := by
+  unfold pIndexSelReadable at h
+  by_cases h1 : isIntKind cx sel = true
+  · simp only [h1, ↓reduceIte] at h; exact ⟨h1, ih.intR _ _ _ h⟩
+  · simp [h1] at h
+
+theorem pIndexIsReadable_spec {d : Nat} (ih : AccIH cx d) {sel : NodeId}
+    {entries : List (Int × ImmOrPNode SlotId)} {dflt : ImmOrPNode SlotId} {s : S F} {x : Bool}
+    (h : R.val (pIndexIsReadable cx (execRec cx d) sel entries dflt) s = .ok x) :
+    x = vkReadable cx d (readableB cx d) (.pIndex sel entries dflt) s := by
+  unfold pIndexIsReadable at h
+  simp only [R.val_bind] at h
+  obtain ⟨sr, hsr, h⟩ := Res.bind_eq_ok h
+  obtain ⟨hk, hsr'⟩ := pIndexSelReadable_spec ih hsr
+  unfold vkReadable
+  cases sr with
+  | false => simp at h; simp [hk, ← hsr', h]
+  | true =>
+    simp only [Bool.not_true, Bool.false_eq_true, ↓reduceIte, R.val_bind] at h
+    obtain ⟨i, hi, h⟩ := Res.bind_eq_ok h
+    simp [hk, ← hsr', selValue_of_ok hi, slotOrNodeIsReadable_spec ih h]
+
+theorem pIndexIsWritable_spec {d : Nat} (ih : AccIH cx d) {sel : NodeId}
+    {entries : List (Int × ImmOrPNode SlotId)} {dflt : ImmOrPNode SlotId} {s : S F} {x : Bool}
+    (h : R.val (pIndexIsWritable cx (execRec cx d) sel entries dflt) s = .ok x) :
+    x = vkWritable cx d (readableB cx d) (writableB cx d) (.pIndex sel entries dflt) s := by
+  unfold pIndexIsWritable at h
+  simp only [R.val_bind] at h
+  obtain ⟨sr, hsr, h⟩ := Res.bind_eq_ok h
+  obtain ⟨hk, hsr'⟩ := pIndexSelReadable_spec ih hsr
+  unfold vkWritable
+  cases sr with
+  | false => simp at h; simp [hk, ← hsr', h]
+  | true =>
+    simp only [Bool.not_true, Bool.false_eq_true, ↓reduceIte, R.val_bind] at h
+    obtain ⟨i, hi, h⟩ := Res.bind_eq_ok h
+    simp [hk, ← hsr', selValue_of_ok hi, slotOrNodeIsWritable_spec ih h]
+
+theorem copiesIsWritable_spec {d : Nat} (ih : AccIH cx d) {cs : List NodeId} {b0 : Bool} {s : S F}
+    {x : Bool} (h : R.val (copiesIsWritable cx (execRec cx d) cs b0) s = .ok x) :
+    x = (b0 && cs.all fun c => isNumericRef cx c && writableB cx d c s) := by
+  induction cs generalizing b0 with
+  | nil => simp [copiesIsWritable] at h; simp [h]
+  | cons c cs ihc =>
+    simp only [copiesIsWritable, R.val_bind] at h
+    obtain ⟨w, hw, h⟩ := Res.bind_eq_ok h
+    have := ihc h
+    rw [this, nidIsWritable_spec ih hw]
+    simp [Bool.and_assoc]
+
+theorem varsReadable_spec {d : Nat} (ih : AccIH cx d) {vs : List (String × NodeId)} {b0 : Bool}
+    {s : S F} {x : Bool} (h : R.val (GenApi.varsReadable cx (execRec cx d) vs b0) s = .ok x) :
+    x = (b0 && GenApiSem.varsReadable cx (readableB cx d) vs s) := by
+  induction vs generalizing b0 with
+  | nil => simp [GenApi.varsReadable] at h; simp [GenApiSem.varsReadable, h]
+  | cons v vs ihv =>
+    obtain ⟨nm, n⟩ := v
+    simp only [GenApi.varsReadable, R.val_bind] at h
+    obtain ⟨w, hw, h⟩ := Res.bind_eq_ok h
+    have := ihv h
+    rw [this, isNidReadable_spec ih hw]
+    simp [GenApiSem.varsReadable, Bool.and_assoc]
+
+theorem vkIsReadable_spec {d : Nat} (ih : AccIH cx d) {vk : ValueKind} {s : S F} {x : Bool}
+    (h : R.val (vkIsReadable cx (execRec cx d) vk) s = .ok x) :
+    x = vkReadable cx d (readableB cx d) vk s := by
+  cases vk with
+  | value _ => simp [vkIsReadable] at h; simp [vkReadable, h]
+  | pValue p cs => simp only [vkIsReadable] at h; simp [vkReadable, nidIsReadable_spec ih h]
+  | pIndex sel entries dflt => simp only [vkIsReadable] at h; exact pIndexIsReadable_spec ih h
+
+theorem vkIsWritable_spec {d : Nat} (ih : AccIH cx d) {vk : ValueKind} {s : S F} {x : Bool}
+    (h : R.val (vkIsWritable cx (execRec cx d) vk) s = .ok x) :
+    x = vkWritable cx d (readableB cx d) (writableB cx d) vk s := by
+  cases vk with
+  | value _ => simp [vkIsWritable] at h; simp [vkWritable, h]
+  | pValue p cs =>
+    simp only [vkIsWritable, pValueIsWritable, R.val_bind] at h
+    obtain ⟨b, hb, h⟩ := Res.bind_eq_ok h
+    rw [copiesIsWritable_spec ih h, nidIsWritable_spec ih hb]
+    simp [vkWritable]
+  | pIndex sel entries dflt => simp only [vkIsWritable] at h; exact pIndexIsWritable_spec ih h
+
+/-- the `a()? && b()?` shape of every `is_readable` / `is_writable` body -/
+theorem and_then_spec {m1 m2 : R F Bool} {s : S F} {x p1 p2 : Bool}
+    (h : R.val (do let a ← m1; if !a then pure false else m2) s = .ok x)
+    (h1 : ∀ a, R.val m1 s = .ok a → a = p1) (h2 : ∀ b, R.val m2 s = .ok b → b = p2) :
+    x = (p1 && p2) := by
+  simp only [R.val_bind] at h
+  obtain ⟨a, ha, h⟩ := Res.bind_eq_ok h
+  have := h1 a ha
+  subst this
+  cases a with
+  | false => simp at h; simp [h]
+  | true => simp at h; simp [h2 x h]
+
+theorem regIsReadable_spec {d : Nat} {rb : RegBase} {s : S F} {x : Bool}
+    (h : R.val (regIsReadable cx (execRec cx d) rb) s = .ok x) :
+    x = (baseReadable cx d rb.base s && rb.accessMode != .wo) := by
+  unfold regIsReadable at h
+  exact and_then_spec h (fun a ha => base_readable_spec cx ha) (fun b hb => by simpa using hb.symm)
+
+theorem regIsWritable_spec {d : Nat} {rb : RegBase} {s : S F} {x : Bool}
+    (h : R.val (regIsWritable cx (execRec cx d) rb) s = .ok x) :
+    x = (baseWritable cx d rb.base s && rb.accessMode != .ro) := by
+  unfold regIsWritable at h
+  exact and_then_spec h (fun a ha => base_writable_spec cx ha) (fun b hb => by simpa using hb.symm)
+
+theorem converterIsReadable_spec {d : Nat} (ih : AccIH cx d) {b : Base} {fm : Formulaic F E}
+    {pv : NodeId} {s : S F} {x : Bool}
+    (h : R.val (converterIsReadable cx (execRec cx d) b fm pv) s = .ok x) :
+    x = (baseReadable cx d b s && (isFormulaRef cx pv && readableB cx d pv s) &&
+         GenApiSem.varsReadable cx (readableB cx d) fm.vars s) := by
+  unfold converterIsReadable at h
+  rw [Bool.and_assoc]
+  refine and_then_spec h (fun a ha => base_readable_spec cx ha) (fun y hy => ?_)
+  refine and_then_spec hy (fun a ha => isNidReadable_spec ih ha) (fun z hz => ?_)
+  simpa using varsReadable_spec ih hz
+
+theorem converterIsWritable_spec {d : Nat} (ih : AccIH cx d) {b : Base} {fm : Formulaic F E}
+    {pv : NodeId} {s : S F} {x : Bool}
+    (h : R.val (converterIsWritable cx (execRec cx d) b fm pv) s = .ok x) :
+    x = (baseWritable cx d b s && (isFormulaRef cx pv && writableB cx d pv s) &&
+         GenApiSem.varsReadable cx (readableB cx d) fm.vars s) := by
+  unfold converterIsWritable at h
+  rw [Bool.and_assoc]
+  refine and_then_spec h (fun a ha => base_writable_spec cx ha) (fun y hy => ?_)
+  refine and_then_spec hy (fun a ha => isNidWritable_spec ih ha) (fun z hz => ?_)
+  simpa using varsReadable_spec ih hz
+
+theorem swissKnifeIsReadable_spec {d : Nat} (ih : AccIH cx d) {b : Base} {fm : Formulaic F E}
+    {s : S F} {x : Bool}
+    (h : R.val (swissKnifeIsReadable cx (execRec cx d) b fm) s = .ok x) :
+    x = (baseReadable cx d b s && GenApiSem.varsReadable cx (readableB cx d) fm.vars s) := by
+  unfold swissKnifeIsReadable at h
+  refine and_then_spec h (fun a ha => base_readable_spec cx ha) (fun z hz => ?_)
+  simpa using varsReadable_spec ih hz
+
+/-! ### per interface -/
+
+theorem intIsReadableF_spec {d : Nat} (ih : AccIH cx d) {n : NodeId} {s : S F} {x : Bool}
+    (h : R.val (intIsReadableF cx (execRec cx d) n) s = .ok x) :
+    x = readableStep cx d (readableB cx d) n s := by
+  unfold intIsReadableF at h
+  unfold readableStep
+  cases hg : cx.graph n with
+  | none => simp [hg] at h
+  | some nd =>
+    cases nd <;> simp only [hg] at h <;> try (simp at h; done)
+    · exact and_then_spec h (fun a ha => base_readable_spec cx ha) (fun y hy => vkIsReadable_spec ih hy)
+    · exact regIsReadable_spec h
+    · exact regIsReadable_spec h
+    · exact converterIsReadable_spec ih h
+    · exact swissKnifeIsReadable_spec ih h
+
+theorem intIsWritableF_spec {d : Nat} (ih : AccIH cx d) {n : NodeId} {s : S F} {x : Bool}
+    (h : R.val (intIsWritableF cx (execRec cx d) n) s = .ok x) :
+    x = writableStep cx d (readableB cx d) (writableB cx d) n s := by
+  unfold intIsWritableF at h
+  unfold writableStep
+  cases hg : cx.graph n with
+  | none => simp [hg] at h
+  | some nd =>
+    cases nd <;> simp only [hg] at h <;> try (simp at h; done)
+    · exact and_then_spec h (fun a ha => base_writable_spec cx ha) (fun y hy => vkIsWritable_spec ih hy)
+    · exact regIsWritable_spec h
+    · exact regIsWritable_spec h
+    · exact converterIsWritable_spec ih h
+    · simp at h; simp [h]
+
+theorem floatIsReadableF_spec {d : Nat} (ih : AccIH cx d) {n : NodeId} {s : S F} {x : Bool}
+    (h : R.val (floatIsReadableF cx (execRec cx d) n) s = .ok x) :
+    x = readableStep cx d (readableB cx d) n s := by
+  unfold floatIsReadableF at h
+  unfold readableStep
+  cases hg : cx.graph n with
+  | none => simp [hg] at h
+  | some nd =>
+    cases nd <;> simp only [hg] at h <;> try (simp at h; done)
+    · exact and_then_spec h (fun a ha => base_readable_spec cx ha) (fun y hy => vkIsReadable_spec ih hy)
+    · exact regIsReadable_spec h
+    · exact converterIsReadable_spec ih h
+    · exact swissKnifeIsReadable_spec ih h
+
+theorem floatIsWritableF_spec {d : Nat} (ih : AccIH cx d) {n : NodeId} {s : S F} {x : Bool}
+    (h : R.val (floatIsWritableF cx (execRec cx d) n) s = .ok x) :
+    x = writableStep cx d (readableB cx d) (writableB cx d) n s := by
+  unfold floatIsWritableF at h
+  unfold writableStep
+  cases hg : cx.graph n with
+  | none => simp [hg] at h
+  | some nd =>
+    cases nd <;> simp only [hg] at h <;> try (simp at h; done)
+    · exact and_then_spec h (fun a ha => base_writable_spec cx ha) (fun y hy => vkIsWritable_spec ih hy)
+    · exact regIsWritable_spec h
+    · exact converterIsWritable_spec ih h
+    · simp at h; simp [h]
+
+theorem strIsReadableF_spec {d : Nat} (ih : AccIH cx d) {n : NodeId} {s : S F} {x : Bool}
+    (h : R.val (strIsReadableF cx (execRec cx d) n) s = .ok x) :
+    x = readableStep cx d (readableB cx d) n s := by
+  unfold strIsReadableF at h
+  unfold readableStep
+  cases hg : cx.graph n with
+  | none => simp [hg] at h
+  | some nd =>
+    cases nd <;> simp only [hg] at h <;> try (simp at h; done)
+    · exact and_then_spec h (fun a ha => base_readable_spec cx ha) (fun y hy => slotOrNodeStrIsReadable_spec ih hy)
+    · exact regIsReadable_spec h
+
+theorem strIsWritableF_spec {d : Nat} (ih : AccIH cx d) {n : NodeId} {s : S F} {x : Bool}
+    (h : R.val (strIsWritableF cx (execRec cx d) n) s = .ok x) :
+    x = writableStep cx d (readableB cx d) (writableB cx d) n s := by
+  unfold strIsWritableF at h
+  unfold writableStep
+  cases hg : cx.graph n with
+  | none => simp [hg] at h
+  | some nd =>
+    cases nd <;> simp only [hg] at h <;> try (simp at h; done)
+    · exact and_then_spec h (fun a ha => base_writable_spec cx ha) (fun y hy => slotOrNodeStrIsWritable_spec ih hy)
+    · exact regIsWritable_spec h
+
+theorem boolIsReadableF_spec {d : Nat} (ih : AccIH cx d) {n : NodeId} {s : S F} {x : Bool}
+    (h : R.val (boolIsReadableF cx (execRec cx d) n) s = .ok x) :
+    x = readableStep cx d (readableB cx d) n s := by
+  unfold boolIsReadableF at h
+  unfold readableStep
+  cases hg : cx.graph n with
+  | none => simp [hg] at h
+  | some nd =>
+    cases nd <;> simp only [hg] at h <;> try (simp at h; done)
+    · exact and_then_spec h (fun a ha => base_readable_spec cx ha) (fun y hy => slotOrNodeIsReadable_spec ih hy)
+
+theorem boolIsWritableF_spec {d : Nat} (ih : AccIH cx d) {n : NodeId} {s : S F} {x : Bool}
+    (h : R.val (boolIsWritableF cx (execRec cx d) n) s = .ok x) :
+    x = writableStep cx d (readableB cx d) (writableB cx d) n s := by
+  unfold boolIsWritableF at h
+  unfold writableStep
+  cases hg : cx.graph n with
+  | none => simp [hg] at h
+  | some nd =>
+    cases nd <;> simp only [hg] at h <;> try (simp at h; done)
+    · exact and_then_spec h (fun a ha => base_writable_spec cx ha) (fun y hy => slotOrNodeIsWritable_spec ih hy)
+
+theorem enumIsReadableF_spec {d : Nat} (ih : AccIH cx d) {n : NodeId} {s : S F} {x : Bool}
+    (h : R.val (enumIsReadableF cx (execRec cx d) n) s = .ok x) :
+    x = readableStep cx d (readableB cx d) n s := by
+  unfold enumIsReadableF at h
+  unfold readableStep
+  cases hg : cx.graph n with
+  | none => simp [hg] at h
+  | some nd =>
+    cases nd <;> simp only [hg] at h <;> try (simp at h; done)
+    · exact and_then_spec h (fun a ha => base_readable_spec cx ha) (fun y hy => slotOrNodeIsReadable_spec ih hy)
+
+theorem enumIsWritableF_spec {d : Nat} (ih : AccIH cx d) {n : NodeId} {s : S F} {x : Bool}
+    (h : R.val (enumIsWritableF cx (execRec cx d) n) s = .ok x) :
+    x = writableStep cx d (readableB cx d) (writableB cx d) n s := by
+  unfold enumIsWritableF at h
+  unfold writableStep
+  cases hg : cx.graph n with
+  | none => simp [hg] at h
+  | some nd =>
+    cases nd <;> simp only [hg] at h <;> try (simp at h; done)
+    · exact and_then_spec h (fun a ha => base_writable_spec cx ha) (fun y hy => slotOrNodeIsWritable_spec ih hy)
+
+theorem cmdIsWritableF_spec {d : Nat} (ih : AccIH cx d) {n : NodeId} {s : S F} {x : Bool}
+    (h : R.val (cmdIsWritableF cx (execRec cx d) n) s = .ok x) :
+    x = writableStep cx d (readableB cx d) (writableB cx d) n s := by
+  unfold cmdIsWritableF at h
+  unfold writableStep
+  cases hg : cx.graph n with
+  | none => simp [hg] at h
+  | some nd =>
+    cases nd <;> simp only [hg] at h <;> try (simp at h; done)
+    · exact and_then_spec h (fun a ha => base_writable_spec cx ha) (fun y hy => slotOrNodeIsWritable_spec ih hy)
+
+/-- **The induction**: the hypothesis holds at every depth. -/
+theorem accIH (cx : Ctx F E) : ∀ d, AccIH cx d
+  | 0 => by
+    constructor <;> intro n s b h <;> simp [execRec, Rec.bottom] at h
+  | d + 1 => by
+    have ih := accIH cx d
+    constructor <;> intro n s b h <;> simp only [execRec, step] at h
+    · exact intIsReadableF_spec ih h
+    · exact floatIsReadableF_spec ih h
+    · exact strIsReadableF_spec ih h
+    · exact boolIsReadableF_spec ih h
+    · exact enumIsReadableF_spec ih h
+    · exact intIsWritableF_spec ih h
+    · exact floatIsWritableF_spec ih h
+    · exact strIsWritableF_spec ih h
+    · exact boolIsWritableF_spec ih h
+    · exact enumIsWritableF_spec ih h
 
 end CamVerif.C18
